@@ -181,7 +181,7 @@ def run(rep, facts, tier):
     for fn in sorted(fx.fns):
         f = fx.fns[fn]
         peeks = [(bb, t) for bb, t in f.calls() if callee_of(t) in PEEKS]
-        if not peeks:
+        if not peeks and not any(callee_of(t) == COMMIT for _, t in f.calls()):
             continue
         n_readers += 1
         commits = [(bb, t) for bb, t in f.calls() if callee_of(t) == COMMIT]
